@@ -370,7 +370,7 @@ pub fn gen_median(rng: &mut Rng, tier: &Tier, acc_every: bool) -> Vec<Case> {
     }
     // a sample type with a niche (`bool`): empty slots must read as empty — before the first sample and all through the
     // warm-up the filter and its accessors know only the samples they were given
-    for _ in 0..tier.n(30, 300) {
+    for _ in 0..(if cfg!(feature = "order_only") { tier.n(30, 300) } else { 0 }) {
         let n = *rng.pick(&[1usize, 2, 3, 4, 5]);
         let mut vals: Vec<String> = (0..rng.range(1, 2 * n as i64 + 2)).map(|_| (*rng.pick(&["1", "1", "0"])).to_string()).collect();
         if rng.chance(1, 3) {
@@ -378,6 +378,13 @@ pub fn gen_median(rng: &mut Rng, tier: &Tier, acc_every: bool) -> Vec<Case> {
             vals.insert(at, "reset".to_string());
         }
         cases.push(median_case(n, " T=bl", &vals, true));
+    }
+    // a sample type with drop glue (one that owns something): what the filter and its accessors report does not depend
+    // on how the samples are moved in and out of the slots
+    for _ in 0..tier.n(40, 400) {
+        let n = rng.range(1, 6) as usize;
+        let vals: Vec<String> = (0..rng.range(1, 3 * n as i64 + 3)).map(|_| rng.range(-6, 6).to_string()).collect();
+        cases.push(median_case(n, " T=tracked", &vals, true));
     }
     // (d) widths beyond the range of a small index type
     for &n in WIDE_WIDTHS.iter() {
@@ -608,6 +615,18 @@ pub fn gen_mean(rng: &mut Rng, tier: &Tier) -> Vec<Case> {
             c.push("guts 1 weight".into());
             cases.push(c);
         }
+    }
+    // at floats: an infinity or a NaN inside the window makes the window sum — and the mean — an infinity or a NaN, for
+    // as long as that sample is among the most recent min(k, N)
+    for _ in 0..tier.n(40, 400) {
+        let t = *rng.pick(&["f64", "f32"]);
+        let n = rng.range(1, 5) as usize;
+        let mut c = vec![format!("new 1 mean N={} T={}", n, t)];
+        for _ in 0..rng.range(2, 3 * n as i64 + 3) {
+            let x = if rng.chance(1, 4) { *rng.pick(&[f64::INFINITY, f64::NEG_INFINITY, f64::NAN]) } else { rng.range(-8, 8) as f64 / 2.0 };
+            c.push(format!("f 1 {}", fbits_nan(t, x)));
+        }
+        cases.push(c);
     }
     // finite memory: two histories that agree on the last N samples continue identically
     for &n in &[1usize, 2, 3, 5] {
@@ -977,6 +996,31 @@ pub fn gen_kalman(rng: &mut Rng, tier: &Tier) -> Vec<Case> {
         }
         cases.push(c);
     }
+    // the estimate and the covariance ARE the filter's state: a filter that has run for a long time (its covariance at
+    // its floating-point fixed point) and then gets the state of another one written over its own — through `state_mut`,
+    // or by `clone_from` — continues exactly as that other one does
+    for _ in 0..tier.n(8, 60) {
+        let t = *rng.pick(&["f64", "f32"]);
+        let (r, q, a, cc) = *rng.pick(&[(2.0, 1.0, 1.0, 1.0), (0.5, 3.0, 0.875, -2.0), (0.25, 0.125, -1.5, 0.5), (1.0, 1.0, 1.0, 1.0), (0.0, 1.0, 1.0, 1.0)]);
+        let mut c = vec![
+            format!("new 1 kalman r={} q={} a={} b={} c={} T={}", fbits(t, r), fbits(t, q), fbits(t, a), fbits(t, 0.0), fbits(t, cc), t),
+            "fresh 1 2".to_string(),
+        ];
+        for _ in 0..rng.range(70, 220) {
+            c.push(format!("f 1 {}", fbits(t, rng.range(-16, 16) as f64 / 4.0)));
+        }
+        for _ in 0..rng.range(0, 3) {
+            c.push(format!("f 2 {}", fbits(t, rng.range(-16, 16) as f64 / 4.0)));
+        }
+        c.push((if rng.chance(3, 4) { "stset 1 2" } else { "clonefrom 1 2" }).to_string());
+        for _ in 0..rng.range(2, 6) {
+            let x = fbits(t, rng.range(-16, 16) as f64 / 4.0);
+            c.push(format!("f 1 {}", x));
+            c.push(format!("f 2 {}", x));
+            c.push("same 1 2 C06.state-determines-future".into());
+        }
+        cases.push(c);
+    }
     cases
 }
 
@@ -1196,6 +1240,34 @@ pub fn gen_diffint(rng: &mut Rng, tier: &Tier) -> Vec<Case> {
         cases.push(c);
     }
     cases.extend(long_cases(rng, &["integrate".to_string(), "differentiate".to_string()]));
+    // machine integers: unsigned types (no negation, nothing below zero) and the signed minimum (no negative) — every
+    // running sum / every difference the property names is representable, so it is owed; no step may need more room
+    for _ in 0..tier.n(30, 300) {
+        let (t, vals): (&str, Vec<i64>) = match rng.below(4) {
+            0 => ("u8", vec![0, 1, 2, 7, 40, 100]),
+            1 => ("i8", vec![-128, -100, -3, 0, 1, 5, 60, 127]),
+            2 => ("i64", vec![i64::MIN, i64::MIN + 7, -5, 0, 3, 1 << 40, i64::MAX]),
+            _ => ("u8", vec![0, 255, 1, 254]),
+        };
+        let (lo, hi): (i128, i128) = match t { "u8" => (0, 255), "i8" => (-128, 127), _ => (i64::MIN as i128, i64::MAX as i128) };
+        let integ = rng.chance(2, 3);
+        let mut c = vec![format!("new 1 {} T={}", if integ { "integrate" } else { "differentiate" }, t)];
+        let mut sum: i128 = 0;
+        let mut prev: Option<i128> = None;
+        for _ in 0..rng.range(1, 9) {
+            let x = *rng.pick(&vals) as i128;
+            let fits = if integ { sum + x >= lo && sum + x <= hi } else { prev.map_or(true, |p| x - p >= lo && x - p <= hi) };
+            if !fits {
+                continue;
+            }
+            sum += x;
+            prev = Some(x);
+            c.push(format!("f 1 {}", x));
+        }
+        if c.len() > 1 {
+            cases.push(c);
+        }
+    }
     // zeros of either sign next to each other (their difference and their sum are zeros too, of a sign the operands
     // determine): every sequence over {+0, -0, 1, -1} of length 3 (thorough: 4)
     for kind in ["differentiate_b", "integrate_b"] {
@@ -1257,6 +1329,29 @@ pub fn gen_meanvar(rng: &mut Rng, tier: &Tier) -> Vec<Case> {
             }
             cases.push(c);
         }
+    }
+    // at floats, next to the exponential mean filter of the same gain: the mean output is that filter's output, value for
+    // value — for a first sample that is an infinity, a NaN or a zero of either sign too (after construction, after a reset)
+    for _ in 0..tier.n(40, 400) {
+        let t = *rng.pick(&["f64", "f32"]);
+        let w = fbits(t, *rng.pick(&[0.125, 0.25, 0.5, 0.75, 1.0]));
+        let mut c = vec![format!("new 1 emeanvar w={} T={}", w, t), format!("new 3 ema w={} T={}", w, t)];
+        for round in 0..rng.range(1, 2) {
+            if round > 0 {
+                c.push("reset 1".into());
+                c.push("reset 3".into());
+            }
+            let mut xs = vec![special_first(rng, t)];
+            for _ in 0..rng.range(0, 3) {
+                xs.push(fbits(t, rng.range(-8, 8) as f64 / 4.0));
+            }
+            for x in xs {
+                c.push(format!("f 1 {}", x));
+                c.push(format!("f 3 {}", x));
+                c.push("same 1 3 C16.mean-eq-mean-filter 0".into());
+            }
+        }
+        cases.push(c);
     }
     cases.extend(long_cases(rng, &["meanvar N=3".to_string()]));
     {
@@ -1402,6 +1497,19 @@ pub fn gen_classify9(rng: &mut Rng, tier: &Tier) -> Vec<Case> {
         }
         cases.push(c);
     }
+    // the smallest machine integers, ends of the range included: rising / falling is a matter of ORDER — an unsigned type
+    // has nothing below zero, and the step from one end of a signed type to the other does not fit the type
+    for (t, vals) in [("u8", [0i64, 1, 2, 127, 128, 254, 255]), ("i8", [-128i64, -127, -1, 0, 1, 126, 127])] {
+        for kind in ["slopes", "peaks"] {
+            for _ in 0..tier.n(25, 250) {
+                let mut c = vec![format!("new 1 {} out=21,22,23 T={}", kind, t)];
+                for _ in 0..rng.range(2, 9) {
+                    c.push(format!("f 1 {}", rng.pick(&vals)));
+                }
+                cases.push(c);
+            }
+        }
+    }
     // hand-assembled states of the detectors (their state is public): a stream handed over mid-way — from samples to
     // slopes, from one detector to another. The "previous slope" of a peak detector is what its state says it is; the
     // nested slope filter's memory is given either the same value or another one (the slope-driven path does not read it)
@@ -1435,7 +1543,7 @@ pub fn gen_classify9(rng: &mut Rng, tier: &Tier) -> Vec<Case> {
     }
     // composite-like samples (`3~`: what `(3.0, NaN)` is among lexicographically compared tuples — unequal even to itself,
     // yet greater / smaller than other values): still rising / falling against a different predecessor, flat otherwise
-    for _ in 0..tier.n(80, 800) {
+    for _ in 0..(if cfg!(feature = "order_only") { tier.n(80, 800) } else { 0 }) {
         let mut c = vec!["new 1 slopes out=21,22,23 T=sn".to_string(), "new 2 peaks out=21,22,23 T=sn".to_string()];
         let len = rng.range(2, 12) as usize;
         for x in int_seq(rng, len) {
